@@ -136,6 +136,36 @@ Definition shift_spec (f g : frame) (p : Z) : bool :=
               (seq 0 (length (cdata a)))
        | _, _ => false end) (fkeys f).
 
+(* C04: the groups are the partition of the rows by the tuple of key cells (Go ==), each
+   group complete and in original order, groups in order of first appearance *)
+Definition tuple_of (ks : list str) (r : rowmap) : list cell := map (rget r) ks.
+Definition tuples_eqb (a b : list cell) : bool := list_eqb cell_eqb a b.
+Fixpoint is_subseq (a b : list rowmap) : bool :=
+  match a, b with
+  | [], _ => true
+  | _ :: _, [] => false
+  | x :: a', y :: b' => if row_same x y then is_subseq a' b' else is_subseq a b'
+  end.
+Fixpoint first_tuples (ts : list (list cell)) (seen : list (list cell)) : list (list cell) :=
+  match ts with
+  | [] => []
+  | t :: rest => if existsb (tuples_eqb t) seen then first_tuples rest seen
+                 else t :: first_tuples rest (t :: seen)
+  end.
+Definition c04_partition (f : frame) (ks : list str) (g : groups) : bool :=
+  let rs := rows f in
+  perm_rows (concat (map snd g)) rs
+  && forallb (fun kr => negb (null (snd kr))) g
+  && forallb (fun kr => match snd kr with
+                        | [] => true
+                        | r0 :: rest => forallb (fun r => tuples_eqb (tuple_of ks r0) (tuple_of ks r)) rest
+                        end) g
+  && forallb (fun kr => is_subseq (snd kr) rs) g
+  && list_eqb tuples_eqb (map (fun kr => match snd kr with r0 :: _ => tuple_of ks r0 | [] => [] end) g)
+                         (first_tuples (map (tuple_of ks) rs) []).
+Definition c04_single_key (k : str) (g : groups) : bool :=
+  forallb (fun kr => forallb (fun r => cell_same (fst kr) (rget r k)) (firstn 1 (snd kr))) g.
+
 (* ---------- the check of one step ---------- *)
 (* finding codes: 1 result differs from the model; 2 post-state differs from the model;
    10 C01 frame not rectangular/named; 11 C01 Nrows disagrees; 12 C01 row alignment;
@@ -173,6 +203,13 @@ Definition check_step (O : oracles) (pre : pool) (s : stepobs) : list nat :=
   ++ (if c20_err_keeps pre io post then [] else [31%nat])
   ++ (match o, io, nth_opt pre (match op_source o with Some i => i | None => 0%nat end) with
       | OShift _ p, Ok (VFrame g), Some f => if shift_spec f g p then [] else [41%nat]
+      | OGroupby _ gk, Ok (VGroups g), Some f =>
+        if c04_partition f (gkey_cols gk) g && (match gk with GOne k => c04_single_key k g | GList _ => true end)
+        then []
+        else 42%nat :: (match gk, mo with
+                        | GList _, Ok (VGroups m) => if val_same (VGroups m) (VGroups g) then [43%nat] else []
+                        | _, _ => []
+                        end)
       | _, _, _ => []
       end).
 
